@@ -47,9 +47,10 @@ Print Assumptions c18_dup_leaves.
 
 Theorem c18_accepts : forall (ui : bool) t,
   NoDup (leaf_names t) -> NoDup (internal_names (if ui then t else synth t)) ->
+  no_shared_name (if ui then t else synth t) ->
   build_taxonomy ui t = Ok (if ui then t else synth t).
 Proof.
-  intros ui t Hl Hi. apply build_taxonomy_accepts; auto. destruct ui; auto. now rewrite leaf_names_synth.
+  intros ui t Hl Hi Hs. apply build_taxonomy_accepts; auto. destruct ui; auto. now rewrite leaf_names_synth.
 Qed.
 Print Assumptions c18_accepts.
 
